@@ -108,8 +108,10 @@ Section WithClen.
     ws_status : wf_status wf = Some (fs0, rs, owner);
     ws_owner : owner <> 0;
     ws_needs : needs_replay rs = true;
-    ws_log : exists its tl b lo, wf_recs wf = log_of its ++ tl /\ torn tl b /\ NoDup (item_ids its)
-                                 /\ pend its [] = map tg_entry S /\ incr_from lo S /\ 0 <= lo;
+    ws_log : exists its lo, NoDup (item_ids its) /\ incr_from lo S /\ 0 <= lo /\
+               ((exists tl b, wf_recs wf = log_of its ++ tl /\ torn tl b /\ pend its [] = map tg_entry S)
+                \/ (exists S0 id cs, wf_recs wf = log_of its ++ sum_recs id cs /\ ~ In id (item_ids its)
+                      /\ pend its [] = map tg_entry S0 /\ S = S0 ++ [(id, cs)]));
     ws_meta : recs_meta_ok (wf_recs wf)
   }.
 
@@ -126,15 +128,13 @@ Section WithClen.
       /\ fapplys (i_files im) evs = fapplys (i_files im) (fexec clen (i_files im) (cmds_of S))
       /\ forallb keepk evs = true.
   Proof.
-    intros [Hst Hown Hneed (its & tl & b & lo & Hrecs & Htorn & Hnd & Hpend & Hincr & Hlo) Hmeta] Hv Hok.
+    intros [Hst Hown Hneed (its & lo & Hnd & Hincr & Hlo & Hshape) Hmeta] Hv Hok.
     unfold replay_wal. rewrite Hneed.
-    assert (Hsane : sane_items its (wal_size wf)).
-    { intros id cs Hin. pose proof (wal_size_pos wf _ Hst Hmeta) as Hsz.
-      assert (body_len cs <= recs_size (wf_recs wf)).
-      { apply (body_in_size _ id); [assumption|]. rewrite Hrecs. apply in_or_app. left. apply in_log_of, Hin. }
+    pose proof (wal_size_pos wf _ Hst Hmeta) as Hsz.
+    assert (Hbody : forall id cs, In (RBody id cs) (wf_recs wf) -> body_len cs < safetyFactor * wal_size wf).
+    { intros id cs Hin. pose proof (body_in_size _ id cs Hmeta Hin) as H.
       unfold wal_size in *. rewrite Hst in *. unfold recs_size in H.
       change safetyFactor with 1000. change walStatusLenBytes with 10 in *. lia. }
-    rewrite Hrecs, (scan_log_torn its tl b _ Hsane Hnd Htorn), Hpend.
     set (e1 := status_events 0%N WFS_OPEN WRS_REPLAYINPROCESS owner).
     assert (Hfe1 : i_files (apply_events im e1) = i_files im).
     { rewrite i_files_apply_events. apply fapplys_wal_only. reflexivity. }
@@ -142,12 +142,25 @@ Section WithClen.
     { rewrite Hfe1. exact Hv. }
     { rewrite Hfe1. exact Hok. }
     rewrite Hfe1 in Hf.
-    assert (Hsorted : replay_tgs clen 0%N (apply_events im e1)
-                        (sort_tgs (if b then tg_set 0 None (map tg_entry S) else map tg_entry S)) = (evs, ROk)).
-    { destruct b.
-      - rewrite (sort_tgs_with_nil lo) by assumption. cbn [replay_tgs]. exact Hr.
-      - rewrite (sort_tgs_incr lo) by assumption. exact Hr. }
-    rewrite Hsorted. eexists. split; [reflexivity|]. split.
+    assert (Hscan : exists m, scan (wf_recs wf) (wal_size wf) [] [] = ScanOk m
+                     /\ replay_tgs clen 0%N (apply_events im e1) (sort_tgs m) = (evs, ROk)).
+    { destruct Hshape as [(tl & b & Hrecs & Htorn & Hpend)|(S0 & id & cs & Hrecs & Hni & Hpend & HS)].
+      - assert (Hsane : sane_items its (wal_size wf)).
+        { intros id cs Hin. apply (Hbody id). rewrite Hrecs. apply in_or_app. left. apply in_log_of, Hin. }
+        rewrite Hrecs, (scan_log_torn its tl b _ Hsane Hnd Htorn), Hpend. eexists. split; [reflexivity|].
+        destruct b.
+        + rewrite (sort_tgs_with_nil lo) by assumption. cbn [replay_tgs]. exact Hr.
+        + rewrite (sort_tgs_incr lo) by assumption. exact Hr.
+      - assert (Hsane : sane_items its (wal_size wf)).
+        { intros id' cs' Hin. apply (Hbody id'). rewrite Hrecs. apply in_or_app. left. apply in_log_of, Hin. }
+        assert (Hb : body_len cs < safetyFactor * wal_size wf).
+        { apply (Hbody id). rewrite Hrecs. apply in_or_app. right. cbn. right. right. right. left. reflexivity. }
+        rewrite Hrecs, (scan_log_sum its id cs _ Hsane Hb Hnd Hni), Hpend. eexists. split; [reflexivity|].
+        subst S. change id with (fst (id, cs)). change (Some cs) with (Some (snd (id, cs))).
+        rewrite (tg_set_entries_fresh lo) by assumption.
+        rewrite (sort_tgs_incr lo) by assumption. exact Hr. }
+    destruct Hscan as (m & Hsc & Hrp). rewrite Hsc, Hrp.
+    eexists. split; [reflexivity|]. split.
     - rewrite !fapplys_app. rewrite (fapplys_wal_only e1) by reflexivity.
       rewrite Hf. apply fapplys_wal_only. reflexivity.
     - rewrite !forallb_app, Hk. reflexivity.
